@@ -11,6 +11,9 @@ package main
 //                                 stream inputs, without and with a declared sort key
 //   corpus  (S, oracle)           the same for the repo's own programs on their own inputs
 //   lake    (S, oracle)           the same for pool scans, optimized plan at parallelism 1..4
+//   join    (S, oracle)           two file readers feeding a join of every style, each side
+//                                 independently pre-sorted (asc/desc) or not: sort-key propagation
+//                                 into LeftDir/RightDir
 //   known   (S, oracle)           the witnesses of the recorded defects, replayed on the real code
 
 import (
@@ -471,7 +474,13 @@ func (c *c07Case) classify(l *TLake, o c07Outcome) string {
 		return "C07:panic:" + shapeOf(c.Prog)
 	}
 	if isTimeout(o.Un) != isTimeout(o.Op) {
+		// a fork whose legs are read by a merge or a join (written in the program or inserted by
+		// the optimizer when it lifts a sort into the legs)
 		if t := c.Prog.Text(); strings.Contains(t, "fork") && (strings.Contains(t, "merge") || strings.Contains(t, "join")) {
+			return "C07:hang:fork-fanin"
+		}
+		if _, after, _, _ := OptimizeOnly(PlanCfg{Query: c.Prog.Text(), SortKey: parseSortKey(c.SortKey), Optimize: true}); strings.Contains(after, "(Fork") &&
+			(strings.Contains(after, "(Merge") || strings.Contains(after, "(Join")) {
 			return "C07:hang:fork-fanin"
 		}
 		return "C07:hang:" + shapeOf(c.Prog)
@@ -817,6 +826,9 @@ func runC07(c *Ctx) {
 				cases = append(cases, structCase{Query: q, SortKey: k})
 			}
 		}
+		for _, q := range c07StructOnlySeeds {
+			cases = append(cases, structCase{Query: q})
+		}
 		c07Struct(c, l, nil, cases)
 	}
 
@@ -872,9 +884,21 @@ func runC07(c *Ctx) {
 		checkAll(c, l, cc07)
 	}
 
+	if c.Want("join") {
+		c07Join(c)
+	}
+
 	if c.Want("lake") {
 		c07Lake(c, l, progs)
 	}
+}
+
+// c07StructOnlySeeds are compiled and optimized but never run (their sources do not exist): joins
+// fed by two file sources, for the directions the optimizer attaches to the join.
+var c07StructOnlySeeds = []string{
+	"file /nonexistent/l.zson | sort a | join (file /nonexistent/r.zson) on a=b", "file /nonexistent/l.zson | sort a | right join (file /nonexistent/r.zson) on a=b x:=c",
+	"file /nonexistent/l.zson | right join (file /nonexistent/r.zson | sort -r b) on a=b", "file /nonexistent/l.zson | sort a desc | left join (file /nonexistent/r.zson | sort b) on a=b",
+	"file /nonexistent/l.zson | sort a | anti join (file /nonexistent/r.zson | sort b) on a=b", "file /nonexistent/l.zson | sort x | inner join (file /nonexistent/r.zson | sort y) on a=b",
 }
 
 // c07StructSeeds: shapes every rewrite must be seen on, whatever the random draw.
@@ -911,6 +935,19 @@ var c07StructSeeds = []string{
 }
 
 func c07Replay(c *Ctx, l *TLake) {
+	var probe struct {
+		Check string `json:"check"`
+	}
+	if json.Unmarshal(c.Replay, &probe) == nil && probe.Check == "join" {
+		var j joinCase
+		if json.Unmarshal(c.Replay, &j) == nil {
+			c.Eval("replay")
+			if d, prog, _ := j.diff(); d != "" {
+				c.Fail("oracle", "C07:join:"+j.Style+":"+strings.ReplaceAll(j.LPrep, " ", "_")+":"+strings.ReplaceAll(j.RPrep, " ", "_"), fmt.Sprintf("`%s`: %s", prog, d), &j)
+			}
+		}
+		return
+	}
 	var cs c07Case
 	if err := json.Unmarshal(c.Replay, &cs); err != nil || len(cs.Prog.Stages) == 0 {
 		var sr struct {
@@ -929,6 +966,16 @@ func c07Replay(c *Ctx, l *TLake) {
 	}
 	if cs.Check == "lake" {
 		c07LakeReplay(c, l, &cs)
+		return
+	}
+	if cs.Check == "join" {
+		var j joinCase
+		if json.Unmarshal(c.Replay, &j) == nil {
+			c.Eval("replay")
+			if d, prog, _ := j.diff(); d != "" {
+				c.Fail("oracle", "C07:join:"+j.Style+":"+strings.ReplaceAll(j.LPrep, " ", "_")+":"+strings.ReplaceAll(j.RPrep, " ", "_"), fmt.Sprintf("`%s`: %s", prog, d), &j)
+			}
+		}
 		return
 	}
 	cs.check(c, l)
